@@ -13,7 +13,6 @@ import (
 	"strings"
 
 	"github.com/formancehq/numscript"
-	"github.com/formancehq/numscript/internal/parser"
 )
 
 type cliResult struct {
@@ -161,6 +160,11 @@ func init() {
 				case 4:
 					sc.Text = "\t" + sc.Text + "  \n\n"
 				}
+				if i%30 == 17 {
+					// nothing to run: a file of zero bytes, of blanks, of comments only - the library returns an empty result, so must the CLI
+					sc.Text = []string{"", " \n\t\n", "// nothing here\n", "/* nothing */"}[(i/30)%4]
+					sc.Vars = map[string]string{}
+				}
 				sc.Expected = "" // the text was edited after printing (a final comment without line feed is not even valid): judge the tree parsed from these very bytes
 			}
 			sc.Kind = skStatic
@@ -173,7 +177,7 @@ func init() {
 				printed = append(printed, fmt.Sprintf("(%s, %s)", m[1], m[2]))
 			}
 			lo, _ := runCheck(sc.Text)
-			pr := parser.Parse(sc.Text)
+			pr := parseSafe(sc.Text)
 			ccase := fmt.Sprintf("(mk_ccase %s %s %s)", dumpProgram(pr.Value), coqParseDiags(pr), coqCheckObs(lo))
 			// ---- library run (bundled static store) and the three channels
 			ro, log := sc.run()
